@@ -613,8 +613,9 @@ class Balancer:
     def _handle(self, truism):
         log.debug("Handling %s", truism)
 
-        if claripy.backends.vsa.is_false(truism):
-            raise ClaripyBalancerUnsatError
+        # Note: `truism` is the *balanced* truism. Balancing x + c OP d to x OP d - c is only valid together with the
+        # implicit assumption it is paired with (the pair denotes a wrapped interval), so a balanced truism that is false
+        # on its own does not make the constraint unsatisfiable. _doit() has checked the original truism.
         if Balancer._cardinality(truism.args[0]) == 1:
             # we are down to single-cardinality arguments, so our work is not
             # necessary
